@@ -14,5 +14,5 @@ print("setup: simulators built in", bdir, "for tree", tree)
 bad = m.selftest(30, 4)
 if bad:
     print("setup: determinism self-test FAILED for", bad); sys.exit(2)
-print("setup: determinism self-test ok (8 engines x 4 processes x 30 runs, GOMAXPROCS 1/4/16)")
+print("setup: determinism self-test ok (all simulated engines x 4 processes x 30 runs, GOMAXPROCS 1/4/16)")
 PY
